@@ -561,3 +561,239 @@ pub fn run_seq_case_for(prop: &'static str, case: &SeqCase) -> Verdict {
     g = g.class_if(unblocks > 0, "unblock-used").class_if(with_both > 0, "receive-with-token-and-request-queued").class_if(res.stats.clock_picks > 0, "timeout-fired");
     Verdict::Pass(g)
 }
+
+// ------------------------------------------------------------------------------------------
+// Timed receivers that leave after one call, beside receivers that block for good, with pushes and
+// unblock calls placed at sub-millisecond offsets around the moment a timeout runs out.  A
+// wake-up handed to a receiver that is about to give up must not be lost for the others.
+
+#[derive(Clone, Debug, Serialize, Deserialize, PartialEq, Eq)]
+pub enum EdgeEvent {
+    Push,
+    Unblock,
+}
+
+#[derive(Clone, Debug, Serialize, Deserialize)]
+pub struct EdgeCase {
+    /// one-shot timed receivers: timeout in units of 100 µs
+    pub timed: Vec<u16>,
+    /// number of receivers that call recv() until it fails (always more than the unblock calls)
+    pub blocking: usize,
+    /// (virtual delay before the event in units of 100 µs, event), issued one after the other
+    pub events: Vec<(u16, EdgeEvent)>,
+    pub tape: Vec<u8>,
+}
+
+pub fn edge_strategy() -> BoxedStrategy<EdgeCase> {
+    let t = proptest::sample::select(vec![10u16, 20, 50]);
+    let delay = proptest::sample::select(vec![0u16, 1, 5, 9, 10, 11, 15, 19, 20, 21, 30, 45, 49, 50, 51]);
+    (proptest::collection::vec(t, 1..=2), 1usize..=3, proptest::collection::vec((delay, prop_oneof![3 => Just(EdgeEvent::Push), 1 => Just(EdgeEvent::Unblock)]), 1..=4), tape_strategy(160))
+        .prop_map(|(timed, blocking, mut events, tape)| {
+            // at least one blocking receiver always stays: fewer unblock calls than blocking receivers
+            let mut u = 0;
+            for e in events.iter_mut() {
+                if e.1 == EdgeEvent::Unblock {
+                    if u + 1 >= blocking {
+                        e.1 = EdgeEvent::Push;
+                    } else {
+                        u += 1;
+                    }
+                }
+            }
+            EdgeCase { timed, blocking, events, tape }
+        })
+        .boxed()
+}
+
+#[derive(Default, Clone)]
+struct EdgeLog {
+    got: Vec<u32>,
+    blocking_released: usize,
+    timed_done: usize,
+    /// timed receivers that came back empty-handed well before their timeout (an unblock token)
+    timed_none_early: usize,
+    /// ... and around or after their timeout (either reading is possible)
+    timed_none_late: usize,
+    violations: Vec<(String, String)>,
+}
+
+pub fn run_edge_case(prop: &'static str, case: &EdgeCase) -> Verdict {
+    let checks_done = Arc::new(AtomicBool::new(false));
+    let log: Arc<StdMutex<EdgeLog>> = Arc::new(StdMutex::new(EdgeLog::default()));
+    let phase = Arc::new(AtomicUsize::new(0));
+    let c = case.clone();
+    let (cd, lg, ph) = (checks_done.clone(), log.clone(), phase.clone());
+    let pushes = case.events.iter().filter(|e| e.1 == EdgeEvent::Push).count();
+    let unblocks = case.events.iter().filter(|e| e.1 == EdgeEvent::Unblock).count();
+    let res = run_exec(&case.tape, checks_done.clone(), move || {
+        let clock = rt::begin_execution();
+        let q: Arc<MessagesQueue<u32>> = MessagesQueue::with_capacity(8);
+        let sh = Arc::new(Shared { st: rt::sync::Mutex::new(St::default()), cv: rt::sync::Condvar::new() });
+        let mut handles = vec![];
+        for t in c.timed.iter().copied() {
+            let (q, sh, lg) = (q.clone(), sh.clone(), lg.clone());
+            handles.push(shuttle::thread::spawn(move || {
+                let t0 = rt::time::Instant::now();
+                let timeout = Duration::from_micros(t as u64 * 100);
+                let r = q.pop_timeout(timeout);
+                let el = t0.elapsed();
+                {
+                    let mut l = lg.lock().unwrap();
+                    l.timed_done += 1;
+                    match r {
+                        Some(id) => l.got.push(id),
+                        None => {
+                            if el + Duration::from_millis(1) < timeout {
+                                l.timed_none_early += 1;
+                            } else {
+                                l.timed_none_late += 1;
+                            }
+                        }
+                    }
+                }
+                let _g = sh.st.lock().unwrap();
+                sh.cv.notify_all();
+            }));
+        }
+        for _ in 0..c.blocking {
+            let (q, sh, lg) = (q.clone(), sh.clone(), lg.clone());
+            handles.push(shuttle::thread::spawn(move || {
+                loop {
+                    let r = q.pop();
+                    {
+                        let mut l = lg.lock().unwrap();
+                        match r {
+                            Some(id) => l.got.push(id),
+                            None => l.blocking_released += 1,
+                        }
+                    }
+                    let _g = sh.st.lock().unwrap();
+                    sh.cv.notify_all();
+                    drop(_g);
+                    if r.is_none() {
+                        break;
+                    }
+                }
+            }));
+        }
+        ph.store(1, Ordering::SeqCst);
+        let mut next = 0u32;
+        for (d, e) in &c.events {
+            if *d > 0 {
+                rt::thread::sleep(Duration::from_micros(*d as u64 * 100));
+            } else {
+                rt::thread::yield_now();
+            }
+            match e {
+                EdgeEvent::Push => {
+                    q.push(next);
+                    next += 1;
+                }
+                EdgeEvent::Unblock => q.unblock(),
+            }
+        }
+        ph.store(2, Ordering::SeqCst);
+        // every timed receiver comes back; a blocking receiver is always left, so every element is
+        // received (a receiver blocked while one is queued shows as a deadlock here)
+        {
+            let mut st = sh.st.lock().unwrap();
+            loop {
+                let (got, td) = {
+                    let l = lg.lock().unwrap();
+                    (l.got.len(), l.timed_done)
+                };
+                if got >= pushes && td >= c.timed.len() {
+                    break;
+                }
+                st = sh.cv.wait(st).unwrap();
+            }
+        }
+        ph.store(3, Ordering::SeqCst);
+        // each unblock call has released a receiver, counting the ambiguous timed ones
+        {
+            let mut st = sh.st.lock().unwrap();
+            loop {
+                let enough = {
+                    let l = lg.lock().unwrap();
+                    l.blocking_released + l.timed_none_early + l.timed_none_late >= unblocks
+                };
+                if enough {
+                    break;
+                }
+                st = sh.cv.wait(st).unwrap();
+            }
+        }
+        {
+            let mut l = lg.lock().unwrap();
+            if l.blocking_released + l.timed_none_early > unblocks {
+                let d = format!("{} unblock() calls, yet {} blocking receivers were released and {} timed ones came back early", unblocks, l.blocking_released, l.timed_none_early);
+                l.violations.push(("more-receivers-released-than-unblock-calls".into(), d));
+            }
+        }
+        ph.store(4, Ordering::SeqCst);
+        // teardown: one unblock per blocking receiver still there
+        loop {
+            let left = c.blocking - lg.lock().unwrap().blocking_released;
+            if left == 0 {
+                break;
+            }
+            q.unblock();
+            let mut st = sh.st.lock().unwrap();
+            while c.blocking - lg.lock().unwrap().blocking_released == left {
+                st = sh.cv.wait(st).unwrap();
+            }
+        }
+        ph.store(5, Ordering::SeqCst);
+        for h in handles {
+            let _ = h.join();
+        }
+        let mut leftovers = vec![];
+        for _ in 0..(pushes + unblocks + c.blocking + 2) {
+            if let Some(v) = q.try_pop() {
+                leftovers.push(v);
+            }
+        }
+        if !leftovers.is_empty() {
+            lg.lock().unwrap().violations.push(("element-left-in-queue".into(), format!("{:?}", leftovers)));
+        }
+        cd.store(true, Ordering::SeqCst);
+        clock.finish();
+    });
+    let l = log.lock().unwrap().clone();
+    let ph = phase.load(Ordering::SeqCst);
+    match &res.end {
+        ExecEnd::Completed | ExecEnd::Deadlock { after_checks: true, .. } => {}
+        ExecEnd::Deadlock { after_checks: false, blocked } => {
+            let sig = match ph {
+                0..=2 => format!("{}/queue/wake-up-lost-with-a-receiver-giving-up", prop),
+                3 | 4 => format!("{}/queue/unblock-did-not-release-a-receiver", prop),
+                _ => format!("{}/queue/deadlock", prop),
+            };
+            return fail(sig, format!("no runnable task in phase {} (2 = {} elements pushed, {} received, {} of {} timed receivers back; 3 = waiting for {} releases): {}", ph, pushes, l.got.len(), l.timed_done, case.timed.len(), unblocks, blocked.chars().take(300).collect::<String>()));
+        }
+        ExecEnd::Panic(m) => return fail(format!("{}/queue/panic", prop), m.clone()),
+        ExecEnd::StepBound => return Verdict::Inconclusive("step bound exceeded".into()),
+    }
+    if let Some((k, d)) = l.violations.first() {
+        return fail(format!("{}/queue/{}", prop, k), d.clone());
+    }
+    let mut got = l.got.clone();
+    got.sort();
+    let want: Vec<u32> = (0..pushes as u32).collect();
+    if got != want {
+        let mut dd = got.clone();
+        dd.dedup();
+        let kind = if dd.len() != got.len() { "duplicated" } else if got.len() < want.len() { "lost" } else { "invented" };
+        return fail(format!("{}/queue/element-{}", prop, kind), format!("pushed {:?}, received {:?}", want, got));
+    }
+    let edge = l.timed_none_late > 0 && (pushes + unblocks) > 0;
+    let mut g = if res.stats.clock_picks > 0 { Good { nontrivial: Some(res.stats.trace_hash), classes: vec![], extra_evals: 0 } } else { Good::trivial() };
+    g = g
+        .class(format!("timed={}", case.timed.len()))
+        .class(format!("blocking={}", case.blocking))
+        .class_if(edge, "timed-receiver-gave-up")
+        .class_if(l.timed_none_early > 0, "timed-receiver-released-by-unblock")
+        .class_if(unblocks > 0, "unblock-used")
+        .class_if(res.stats.preemptions > 0, "preempted");
+    Verdict::Pass(g)
+}
